@@ -668,7 +668,8 @@ let hops_of_line (line : string) : hop list =
   | ["sloop_close"; l; t] | ["cloop_close"; l; t] -> [HLoop (n l, n t)]
   | ["listen"; l; s] -> [HListen (n l, n s, true)]
   | ["listen_weak"; l; s] -> [HListen (n l, n s, false)]
-  | ["listen_c"; l; c] -> [HListenC (n l, n c)]
+  | ["listen_c"; l; c] -> [HListenC (n l, n c, true)]
+  | ["listen_cw"; l; c] -> [HListenC (n l, n c, false)]
   | ["unlisten"; l] -> [HUnlisten (n l)]
   | ["drop_l"; l] -> [HDropL (n l)]
   | ["drop_weak"; l] -> [HDropL (n l); HCollect]
